@@ -100,8 +100,10 @@ CAN_BLOCK = {
     '!counting_idle_ticks': 'cbNotCountingIdleTicks',
     'passed_max_switch_timing_check': 'cbPassedMaxSwitchTiming',
     'chordsv2_accepts_chords': 'cbChordsV2Accepts',
+    '!recording_dynamic_macro': 'cbNotRecordingDynMacro',
 }
 CAN_BLOCK_LETS = {
+    'letrecording_dynamic_macro=k.dynamic_macro_record_state.is_some()': 'cbLetRecording',
     'letis_idle=k.is_idle()': 'cbLetIsIdle',
     'letcounting_idle_ticks=!k.waiting_for_idle.is_empty()||k.live_reload_requested': 'cbLetCounting',
     'if!is_idle{k.ticks_since_idle=0;}elseifis_idle&&counting_idle_ticks{k.ticks_since_idle=k.ticks_since_idle.saturating_add(ms_elapsed);}': 'cbUpdateTicksSinceIdle',
